@@ -120,3 +120,90 @@ Proof.
   intros Hin Hc. cbn [step]. rewrite Hin. cbn [negb].
   destruct (partition _ _) as [pushes stay]. cbn [g_hook g_in negb]. rewrite Hc. split; reflexivity.
 Qed.
+
+(* ------------------------------------------------------------------ *)
+(* MPEG-TS recording: one file per input (newest first) holding exactly the
+   PAT/PMT and TS blobs handed to the group while that input was attached *)
+Record tspec := mk_tspec { tp_in : bool; tp_ts : nat; tp_pat : nat; tp_rec : list (list label) }.
+
+Definition tspec_init : tspec := {| tp_in := false; tp_ts := 0; tp_pat := 0; tp_rec := [] |}.
+
+Definition tstep (cf : cfg) (sp : tspec) (e : ev) : tspec :=
+  match e with
+  | EvTs _ =>
+      {| tp_in := tp_in sp; tp_ts := S (tp_ts sp); tp_pat := tp_pat sp;
+         tp_rec := if tp_in sp && cf_record_ts cf then rec_append (tp_rec sp) (LTs (tp_ts sp)) else tp_rec sp |}
+  | EvPatPmt =>
+      {| tp_in := tp_in sp; tp_ts := tp_ts sp; tp_pat := S (tp_pat sp);
+         tp_rec := if tp_in sp && cf_record_ts cf then rec_append (tp_rec sp) (LPat (tp_pat sp)) else tp_rec sp |}
+  | EvInStart =>
+      if tp_in sp then sp
+      else {| tp_in := true; tp_ts := tp_ts sp; tp_pat := tp_pat sp;
+              tp_rec := if cf_record_ts cf then [] :: tp_rec sp else tp_rec sp |}
+  | EvInStop =>
+      if tp_in sp then {| tp_in := false; tp_ts := tp_ts sp; tp_pat := tp_pat sp; tp_rec := tp_rec sp |} else sp
+  | _ => sp
+  end.
+
+Definition trun (cf : cfg) (h : list ev) : tspec := fold_left (tstep cf) h tspec_init.
+
+Definition trel (s : gstate) (sp : tspec) : Prop :=
+  g_in s = tp_in sp /\ g_next_ts s = tp_ts sp /\ g_next_pat s = tp_pat sp /\ g_trec s = tp_rec sp.
+
+Lemma publish_ts_fields cf s m :
+  g_in (publish cf s m) = g_in s /\ g_next_ts (publish cf s m) = g_next_ts s /\
+  g_next_pat (publish cf s m) = g_next_pat s /\ g_trec (publish cf s m) = g_trec s.
+Proof.
+  unfold publish. destruct (Nat.eqb _ 0); [repeat split|]. rewrite rtmp_loop_spec.
+  destruct (has_kind KRtmp _); [destruct (cf_merge cf =? 0); [|destruct (cf_merge cf <=? _)]|];
+    cbn [g_in g_next_ts g_next_pat g_trec]; repeat split; reflexivity.
+Qed.
+
+Lemma trel_step cf s sp e : trel s sp -> trel (step cf s e) (tstep cf sp e).
+Proof.
+  intros (Hin & Hn & Hp & Hr).
+  destruct e as [m|k id|id| | |b| |v|pid|raw]; cbn [step tstep].
+  - destruct (publish_ts_fields cf s m) as (P1 & P2 & P3 & P4). unfold trel. rewrite P1, P2, P3, P4. repeat split; assumption.
+  - destruct (existsb _ _); unfold trel, set_subs; cbn [g_in g_next_ts g_next_pat g_trec]; repeat split; assumption.
+  - destruct (partition _ _). unfold trel. cbn [g_in g_next_ts g_next_pat g_trec]. repeat split; assumption.
+  - rewrite <- Hin. destruct (g_in s) eqn:Hg; unfold trel; cbn [g_in g_next_ts g_next_pat g_trec tp_in tp_ts tp_pat tp_rec]; rewrite ?Hr;
+      repeat split; try assumption; congruence.
+  - rewrite <- Hin. destruct (g_in s) eqn:Hg; cbn [negb].
+    + destruct (partition _ _). unfold trel. cbn [g_in g_next_ts g_next_pat g_trec tp_in tp_ts tp_pat tp_rec]. repeat split; assumption.
+    + unfold trel. repeat split; try assumption. congruence.
+  - unfold feed_ts, trel. cbn [g_in g_next_ts g_next_pat g_trec tp_in tp_ts tp_pat tp_rec]. rewrite Hin, Hn, Hr. repeat split; try assumption; congruence.
+  - unfold trel. cbn [g_in g_next_ts g_next_pat g_trec tp_in tp_ts tp_pat tp_rec]. rewrite Hin, Hp, Hr. repeat split; try assumption; congruence.
+  - unfold trel. cbn [g_in g_next_ts g_next_pat g_trec]. repeat split; assumption.
+  - unfold trel, set_subs. cbn [g_in g_next_ts g_next_pat g_trec]. repeat split; assumption.
+  - unfold feed_rtp, trel. cbn [g_in g_next_ts g_next_pat g_trec]. repeat split; assumption.
+Qed.
+
+Theorem trec_follows_history cf h : trel (run cf h) (trun cf h).
+Proof.
+  unfold run, trun. assert (H0 : trel (g_init cf) tspec_init) by (repeat split).
+  revert H0. generalize (g_init cf) tspec_init.
+  induction h as [|e h IH]; intros s sp H; [exact H|]. cbn [fold_left]. apply IH. now apply trel_step.
+Qed.
+
+(* the teardown closes the file with its content unchanged, and nothing is
+   appended to any file while no input is attached *)
+Theorem in_stop_trec cf s : g_trec (step cf s EvInStop) = g_trec s.
+Proof.
+  cbn [step]. destruct (negb (g_in s)); [reflexivity|]. destruct (partition _ _). reflexivity.
+Qed.
+
+Theorem no_input_no_trec cf s e : g_in s = false -> e <> EvInStart -> g_trec (step cf s e) = g_trec s.
+Proof.
+  intros Hin He.
+  destruct e as [m|k id|id| | |b| |v|pid|raw]; cbn [step].
+  - apply publish_ts_fields.
+  - destruct (existsb _ _); reflexivity.
+  - destruct (partition _ _); reflexivity.
+  - congruence.
+  - now rewrite Hin.
+  - unfold feed_ts. cbn [g_trec]. now rewrite Hin.
+  - cbn [g_trec]. now rewrite Hin.
+  - reflexivity.
+  - reflexivity.
+  - reflexivity.
+Qed.
